@@ -594,7 +594,7 @@ class Filters:
             f'{" " * next_indent}"{line}"'
             for line in textwrap.wrap(
                 value,
-                width=self.max_line_length - next_indent - 2,  # plus quotes
+                width=max(self.max_line_length - next_indent - 2, 20),  # plus quotes
                 drop_whitespace=False,
                 replace_whitespace=False,
                 break_long_words=True,
@@ -609,7 +609,7 @@ class Filters:
         return "\n".join(
             textwrap.wrap(
                 string,
-                width=self.max_line_length - offset,
+                width=max(self.max_line_length - offset, 20),
                 drop_whitespace=True,
                 replace_whitespace=True,
                 break_long_words=False,
@@ -673,7 +673,8 @@ class Filters:
 
         # Calculate available width for text (accounting for indentation and quotes)
         indent_width = level * 4
-        wrap_width = self.max_line_length - indent_width - 4
+        # Deeply nested classes or a tiny line length leave no room at all
+        wrap_width = max(self.max_line_length - indent_width - 4, 20)
 
         # Process the text: split into summary and description
         if text:
